@@ -1,48 +1,555 @@
-// probe (temporary)
+// C13 — point-to-point channels deliver intact, in order, exactly once.
+//
+// The harness OWNS THE WIRE.  Every directed link s->r consists of two OS pipes with the
+// harness in between:   endpoint s --write--> pipe A --read--> [Link::units] --write--> pipe B --read--> endpoint r
+// so the harness decides every fragment boundary, every delay/coalescing and every wire fault.
+// Oracle: a reference model, one FIFO of accepted sends per link (see Sim::deliver / Sim::finish).
+//
+// Wire format as produced by the library (re-derived here only for bookkeeping of boundaries):
+//   [IV, blklen raw bytes, once per encrypted link] then per integer:  base-62 line  '\n'  raw MAC tag (maclen bytes, if authenticated)
+//   encrypted: line = base62( '+' || ENC(base62(m + 2^256)) ), chunked mode appends "|<chunk counter>" to the line.
+//
+// Two pure-environment interposers keep the cost bounded (the library code is unchanged):
+//   * select(2): the harness is single threaded, nothing can arrive while the library waits, so the
+//     50 ms wait of aiounicast_select::Receive is replaced by a zero-timeout poll (virtual time;
+//     C13_REAL_SELECT=1 restores the real wait).
+//   * gcry_kdf_derive: memoised per process (pure function of its arguments; 25000 PBKDF2
+//     iterations per link, direction and purpose otherwise dominate every case).
+// Triage aid: C13_TREAT_AS_KNOWN=sig1,sig2 makes the listed signatures behave like known findings
+// (counted, not reported) so that the remaining checks can be exercised, e.g. for mutant runs.
 #include "fix.hh"
 #include <aiounicast_nonblock.hh>
 #include <aiounicast_select.hh>
 #include <fcntl.h>
 #include <unistd.h>
-#include <chrono>
-#include <sys/select.h>
+#include <signal.h>
+#include <dirent.h>
 #include <dlfcn.h>
+#include <sys/select.h>
+#include <deque>
 using namespace vf;
 const char *vf::PROPERTY = "C13";
-void vf::harness_init() {}
-static long g_sel = 0;
+
+// --------------------------------------------------------------------------- interposers
+static bool g_real_select = false;
+static uint64_t g_vwait_us = 0, g_select_calls = 0;
 extern "C" int select(int nfds, fd_set *r, fd_set *w, fd_set *e, struct timeval *tv) {
   typedef int (*fn)(int, fd_set *, fd_set *, fd_set *, struct timeval *);
   static fn real = (fn)dlsym(RTLD_NEXT, "select");
-  g_sel++;
-  struct timeval z = {0, 0};
-  return real(nfds, r, w, e, tv ? &z : nullptr);
+  g_select_calls++;
+  if (g_real_select || !tv) return real(nfds, r, w, e, tv);
+  struct timeval z = {0, 0}; uint64_t us = (uint64_t)tv->tv_sec * 1000000ULL + (uint64_t)tv->tv_usec;
+  int rv = real(nfds, r, w, e, &z);
+  if (rv == 0) g_vwait_us += us;
+  return rv;
 }
-static double now() { return std::chrono::duration<double>(std::chrono::steady_clock::now().time_since_epoch()).count(); }
-VF_SUB(probe, 1, 1) {
-  FILE *f = fopen("/tmp/c13probe.txt", "w");
-  fprintf(f, "MAX_VALUE_CHARS=%lu maclen=%u blk=%u\n", (unsigned long)TMCG_MAX_VALUE_CHARS, gcry_mac_get_algo_maclen(TMCG_GCRY_MAC_ALGO), (unsigned)gcry_cipher_get_algo_blklen(TMCG_GCRY_ENC_ALGO));
-  for (int sel = 0; sel < 2; sel++) for (int mode = 0; mode < 4; mode++) {
-    int n = 3; int p[3][3][2];
-    for (int i = 0; i < n; i++) for (int j = 0; j < n; j++) pipe2(p[i][j], O_NONBLOCK);
-    double t0 = now();
-    std::vector<aiounicast *> ep;
-    for (int w = 0; w < n; w++) {
-      std::vector<int> in, out; std::vector<std::string> key;
-      for (int i = 0; i < n; i++) { in.push_back(p[i][w][0]); out.push_back(p[w][i][1]); key.push_back("k" + std::to_string(i + w)); }
-      bool a = mode >= 1, e = mode >= 2, c = mode >= 3;
-      if (sel) ep.push_back(new aiounicast_select(n, w, in, out, key, aiounicast::aio_scheduler_roundrobin, 0, a, e, c));
-      else ep.push_back(new aiounicast_nonblock(n, w, in, out, key, aiounicast::aio_scheduler_roundrobin, 0, a, e, c));
-    }
-    double t1 = now();
-    Z v = 12345; bool s = ep[0]->Send(v.get_mpz_t(), 1, 0);
-    Z r; size_t from = 0; bool ok = false; int polls = 0;
-    double t2 = now();
-    for (; polls < 6 && !ok; polls++) ok = ep[1]->Receive(r.get_mpz_t(), from, aiounicast::aio_scheduler_roundrobin, 0);
-    double t3 = now();
-    fprintf(f, "sel=%d mode=%d construct3=%.1fms send=%d recv=%d polls=%d from=%zu val=%s recvtime=%.1fms selcalls=%ld\n", sel, mode, (t1 - t0) * 1e3, s, ok, polls, from, r.get_str().c_str(), (t3 - t2) * 1e3, g_sel);
-    for (auto x : ep) delete x;
-    for (int i = 0; i < n; i++) for (int j = 0; j < n; j++) { close(p[i][j][0]); close(p[i][j][1]); }
+extern "C" gpg_error_t gcry_kdf_derive(const void *pass, size_t passlen, int algo, int subalgo, const void *salt, size_t saltlen,
+                                       unsigned long iterations, size_t keysize, void *keybuffer) {
+  typedef gpg_error_t (*fn)(const void *, size_t, int, int, const void *, size_t, unsigned long, size_t, void *);
+  static fn real = (fn)dlsym(RTLD_NEXT, "gcry_kdf_derive");
+  static std::map<std::string, std::string> memo;
+  std::string key((const char *)pass, passlen); key += '\0'; key.append((const char *)salt, saltlen);
+  key += '\0' + std::to_string(algo) + "," + std::to_string(subalgo) + "," + std::to_string(iterations) + "," + std::to_string(keysize);
+  auto it = memo.find(key);
+  if (it != memo.end()) { memcpy(keybuffer, it->second.data(), keysize); return 0; }
+  gpg_error_t err = real(pass, passlen, algo, subalgo, salt, saltlen, iterations, keysize, keybuffer);
+  if (!err) memo[key] = std::string((const char *)keybuffer, keysize);
+  return err;
+}
+
+struct NullBuf : std::streambuf { int overflow(int c) override { return c; } std::streamsize xsputn(const char *, std::streamsize n) override { return n; } };
+static std::set<std::string> g_treat_known;
+static int count_fds() { int c = 0; DIR *d = opendir("/proc/self/fd"); if (!d) return -1; while (readdir(d)) c++; closedir(d); return c; }
+
+// --------------------------------------------------------------------------- configuration
+enum { M_PLAIN = 0, M_AUTH = 1, M_AUTHENC = 2, M_ENC = 3, M_CHUNKED = 4 };
+static const char *MODE_NAME[] = {"plain", "auth", "auth+enc", "enc", "auth+enc+chunked"};
+static const size_t S_RR = aiounicast::aio_scheduler_roundrobin, S_RND = aiounicast::aio_scheduler_random, S_DIR = aiounicast::aio_scheduler_direct;
+static const char *sched_name(size_t s) { return s == S_RR ? "rr" : s == S_RND ? "rnd" : "dir"; }
+struct Cfg {
+  bool sel = false; int mode = M_AUTHENC; size_t n = 2; int keyvar = 0; bool blocking_fds = false;
+  bool auth() const { return mode == M_AUTH || mode == M_AUTHENC || mode == M_CHUNKED; }
+  bool enc() const { return mode == M_AUTHENC || mode == M_ENC || mode == M_CHUNKED; }
+  bool chunked() const { return mode == M_CHUNKED; }
+  const char *ep() const { return sel ? "select" : "nonblock"; }
+};
+static const Z HIDE = Z(1) << TMCG_AIO_HIDE_SIZE;
+static const Z DELIM = Z(4242424242UL);
+static const size_t BUFSZ = TMCG_MAX_VALUE_CHARS; // receive buffer of the endpoints; Send refuses values with 2*digits >= BUFSZ
+static Z pow62(unsigned e) { Z r; mpz_ui_pow_ui(r.get_mpz_t(), 62, e); return r; }
+
+// --------------------------------------------------------------------------- the wire
+struct Unit { std::string bytes; size_t line = 0; bool is_iv = false; long msg = -1; }; // message unit: line | '\n' | tag
+struct Ent { Z v; bool undeliverable; };
+struct Link {
+  size_t s = 0, r = 0; int a_rd = -1, a_wr = -1, b_rd = -1, b_wr = -1;
+  std::deque<Unit> units; size_t head_off = 0, pending = 0; // bytes taken from the sender and not yet handed to the receiver
+  bool iv_seen = false, layout_exact = true, used = false;
+  std::vector<Ent> sent; size_t delivered = 0;              // the model: FIFO of accepted integers, index of the next undelivered one
+  std::vector<std::string> hist;                             // every original frame (for cross-link injection)
+  bool tainted = false, judged = true, iv_flip_only = true;
+  std::set<std::string> reflected; size_t frames_fed = 0, unjudged = 0;
+};
+
+enum FaultKind { F_FLIP = 0, F_INSERT, F_DELETE, F_DUP, F_SWAP, F_DROP, F_TRUNC, F_REFLECT, F_NKINDS };
+static const char *FAULT_NAME[] = {"flip", "insert", "delete", "dup-frame", "swap-frames", "drop-frame", "truncate", "cross-link-frame"};
+
+struct Sim {
+  Ctx &ctx; Cfg cfg; size_t n, maclen, ivlen;
+  std::vector<aiounicast *> ep; std::vector<Link> links;
+  std::ostringstream log; bool any_fault = false, nt_boundary = false, closed = false;
+  std::map<std::string, std::vector<std::pair<size_t, std::string> > > eq; // (pair, value) -> (link, line) of encrypted frames
+  std::vector<Z> all_values; size_t ndelivered = 0; int fd_before = 0;
+  bool array_style = false; size_t drain_arr = 1;
+
+  Link &L(size_t s, size_t r) { return links[s * n + r]; }
+  std::string head() const { std::ostringstream o; o << cfg.ep() << "/" << MODE_NAME[cfg.mode] << " n=" << n << (array_style ? " array-receive" : " scalar-receive") << (cfg.sel ? (cfg.blocking_fds ? " blocking-fds" : " nonblocking-fds") : ""); return o.str(); }
+  std::string sig(const std::string &cls) const { return std::string("channel/") + cfg.ep() + "/" + MODE_NAME[cfg.mode] + "/" + cls; }
+  std::string ssig(const std::string &cls) const { return std::string("secrecy/") + cfg.ep() + "/" + MODE_NAME[cfg.mode] + "/" + cls; }
+  bool fail(const std::string &s, const std::string &msg) {
+    if (g_treat_known.count(s)) { ctx.count("treated-as-known:" + s); return true; }
+    return ctx.fail(s, msg + " || " + head() + " ops: " + log.str());
   }
-  fclose(f);
+
+  Sim(Ctx &c, const Cfg &cf) : ctx(c), cfg(cf), n(cf.n) {
+    fd_before = count_fds();
+    maclen = cfg.auth() ? gcry_mac_get_algo_maclen(TMCG_GCRY_MAC_ALGO) : 0;
+    ivlen = cfg.enc() ? gcry_cipher_get_algo_blklen(TMCG_GCRY_ENC_ALGO) : 0;
+    links.resize(n * n);
+    for (size_t s = 0; s < n; s++) for (size_t r = 0; r < n; r++) {
+      Link &l = L(s, r); l.s = s; l.r = r; l.judged = cfg.auth(); int p[2];
+      if (pipe2(p, O_NONBLOCK) < 0) throw std::runtime_error("pipe2 failed"); l.a_rd = p[0]; l.a_wr = p[1];
+      if (pipe2(p, O_NONBLOCK) < 0) throw std::runtime_error("pipe2 failed"); l.b_rd = p[0]; l.b_wr = p[1];
+      if (cfg.sel && cfg.blocking_fds) { // t-aio gives the select variant blocking descriptors: library-side ends only
+        fcntl(l.a_wr, F_SETFL, fcntl(l.a_wr, F_GETFL) & ~O_NONBLOCK); fcntl(l.b_rd, F_SETFL, fcntl(l.b_rd, F_GETFL) & ~O_NONBLOCK);
+      }
+    }
+    for (size_t w = 0; w < n; w++) {
+      std::vector<int> in, out; std::vector<std::string> key;
+      for (size_t i = 0; i < n; i++) {
+        in.push_back(L(i, w).b_rd); out.push_back(L(w, i).a_wr);
+        std::ostringstream k; k << "vf-C13-key" << cfg.keyvar << "-" << std::min(i, w) << "-" << std::max(i, w); key.push_back(k.str()); // symmetric per pair
+      }
+      if (cfg.sel) ep.push_back(new aiounicast_select(n, w, in, out, key, S_RR, aiounicast::aio_timeout_none, cfg.auth(), cfg.enc(), cfg.chunked()));
+      else ep.push_back(new aiounicast_nonblock(n, w, in, out, key, S_RR, aiounicast::aio_timeout_none, cfg.auth(), cfg.enc(), false));
+    }
+  }
+  void close_all() {
+    if (closed) return; closed = true;
+    for (auto e : ep) delete e; ep.clear();
+    for (auto &l : links) { close(l.a_rd); close(l.a_wr); close(l.b_rd); close(l.b_wr); }
+    int now = count_fds();
+    if (now != fd_before) ctx.fail("harness/descriptor-leak", "open descriptors before " + std::to_string(fd_before) + " after " + std::to_string(now));
+  }
+  ~Sim() { close_all(); }
+
+  // ---- sender side -------------------------------------------------------
+  std::string take(Link &l) { std::string g; char buf[16384]; for (;;) { ssize_t k = read(l.a_rd, buf, sizeof buf); if (k > 0) g.append(buf, (size_t)k); else break; } return g; }
+  // split what one Send call put on the wire into units; returns the number of message frames or -1
+  long absorb(Link &l, const std::string &g, std::vector<std::string> &lines) {
+    size_t pos = 0; long cnt = 0;
+    if (cfg.enc() && !l.iv_seen && !g.empty()) {
+      if (g.size() < ivlen) return -1;
+      Unit u; u.bytes = g.substr(0, ivlen); u.is_iv = true; l.units.push_back(u); l.pending += ivlen; pos = ivlen; l.iv_seen = true;
+    }
+    while (pos < g.size()) {
+      size_t nl = g.find('\n', pos); if (nl == std::string::npos || nl + 1 + maclen > g.size() || nl == pos) return -1;
+      for (size_t i = pos; i < nl; i++) { unsigned char ch = (unsigned char)g[i]; if (!(isalnum(ch) || (ch == '|' && cfg.chunked()) || (ch == '-' && !cfg.enc() && i == pos))) return -1; }
+      Unit u; u.bytes = g.substr(pos, nl + 1 + maclen - pos); u.line = nl - pos; u.msg = (long)l.hist.size();
+      lines.push_back(g.substr(pos, nl - pos)); l.hist.push_back(u.bytes);
+      l.pending += u.bytes.size(); l.units.push_back(u); pos = nl + 1 + maclen; cnt++;
+    }
+    return cnt;
+  }
+  void secrecy(Link &l, const Z &v, const std::string &g, const std::string &line) {
+    if (!cfg.enc()) return;
+    // (a) the digit strings of the integer (and of the length-hidden integer actually encrypted) do not occur on the wire
+    Z both[2] = {v, v + HIDE};
+    for (int w = 0; w < 2; w++) {
+      Z x = abs(both[w]); if (mpz_sizeinbase(x.get_mpz_t(), 2) < 64) continue;
+      std::string ds[4] = {x.get_str(62), x.get_str(10), x.get_str(16), x.get_str(-16)};
+      for (int b = 0; b < 4; b++) if (g.find(ds[b]) != std::string::npos)
+        fail(ssig("digits-visible-on-wire"), std::string("the ") + (b == 0 ? "base-62" : b == 1 ? "decimal" : "hexadecimal") + " digits of " + (w ? "m+2^256" : "m") + " occur in the wire bytes, m=" + S(v));
+    }
+    // (b) equal integers give different wire bytes (same link, and the reverse direction which shares the key)
+    std::ostringstream k; k << std::min(l.s, l.r) << "-" << std::max(l.s, l.r) << "|" << v.get_str(62);
+    auto &vec = eq[k.str()]; size_t me = l.s * n + l.r;
+    for (auto &pr : vec) if (pr.second == line) {
+      if (pr.first == me) fail(ssig("equal-integers-equal-wire-bytes"), "two sends of " + S(v) + " on link " + std::to_string(l.s) + ">" + std::to_string(l.r) + " produced the same line");
+      else fail(ssig("equal-integers-equal-wire-bytes-across-directions"), "sends of " + S(v) + " on link " + std::to_string(l.s) + ">" + std::to_string(l.r) + " and on the reverse link (same pair key) produced identical wire bytes: " + line.substr(0, 40));
+    }
+    vec.push_back(std::make_pair(me, line));
+  }
+  size_t digits62(const Z &v) const { Z x = abs(cfg.enc() ? Z(v + HIDE) : v); return x.get_str(62).size(); }
+  // one Send call (scalar if vals.size()==1 && !as_array); keeps the model in step with what really went onto the wire
+  bool send(Link &l, const std::vector<Z> &vals, bool as_array, const std::string &cls) {
+    l.used = true; bool ok;
+    if (!as_array) ok = ep[l.s]->Send(vals[0].get_mpz_t(), l.r, aiounicast::aio_timeout_none);
+    else { std::vector<mpz_srcptr> p; for (auto &v : vals) p.push_back(v.get_mpz_t()); ok = ep[l.s]->Send(p, l.r, aiounicast::aio_timeout_none); }
+    std::string g = take(l);
+    log << " S" << l.s << ">" << l.r << (as_array ? "[" : "(") << cls << (as_array ? "]" : ")") << (ok ? "" : "=refused");
+    std::vector<std::string> lines; long cnt = absorb(l, g, lines);
+    std::vector<Z> expect = vals; if (as_array && cfg.chunked()) expect.push_back(DELIM);
+    if (cnt < 0) { fail(sig("wire-format-unexpected"), "bytes written by Send do not parse as [IV] (line newline tag)*: " + std::to_string(g.size()) + " bytes"); l.tainted = true; l.judged = false; return ok; }
+    if (ok && (size_t)cnt != expect.size()) { fail(sig("wire-format-unexpected"), "Send of " + std::to_string(expect.size()) + " integers wrote " + std::to_string(cnt) + " frames"); l.tainted = true; l.judged = false; return ok; }
+    if (!ok) {
+      if (!as_array) {
+        if (cnt != 0 || !g.empty()) fail(sig("refused-send-left-bytes-on-wire"), "Send returned false for " + S(vals[0]) + " but wrote " + std::to_string(g.size()) + " bytes");
+        if ((digits62(vals[0]) + 1) * 2 < BUFSZ) fail(sig("refuses-value-within-limit"), "Send refused " + S(vals[0]) + " (" + std::to_string(digits62(vals[0])) + " base-62 digits)");
+      } else fail(sig("refuses-value-within-limit"), "Send refused an array whose integers are all within the size limit");
+    }
+    // the first cnt integers are on the wire: they are the accepted ones
+    for (long i = 0; i < cnt && (size_t)i < expect.size(); i++) {
+      bool stripped = array_style && cfg.chunked() && as_array && (size_t)i == vals.size(); // delimiter removed by the array Receive
+      if (!stripped) { Ent e; e.v = expect[i]; e.undeliverable = cfg.enc() && expect[i] < 0; l.sent.push_back(e); }
+      secrecy(l, expect[i], g, lines[i]);
+      all_values.push_back(expect[i]);
+    }
+    return ok;
+  }
+
+  // ---- the harness hands bytes to the receiver ----------------------------------------
+  std::string boundary_class(const Link &l) const {
+    if (l.units.empty() || l.head_off == 0) return "frame-boundary";
+    const Unit &u = l.units.front();
+    if (u.is_iv) return "inside-iv";
+    if (l.head_off < u.line) return "inside-line";
+    if (l.head_off == u.line) return "before-newline";
+    if (l.head_off == u.line + 1) return "after-newline";
+    return "inside-tag";
+  }
+  size_t feed(Link &l, size_t nb) {
+    nb = std::min(nb, l.pending); if (!nb) return 0;
+    std::string buf; size_t off = l.head_off;
+    for (auto &u : l.units) { size_t take_n = std::min(nb - buf.size(), u.bytes.size() - off); buf.append(u.bytes, off, take_n); off = 0; if (buf.size() >= nb) break; }
+    ssize_t w = write(l.b_wr, buf.data(), buf.size()); if (w <= 0) return 0;
+    size_t left = (size_t)w; l.pending -= left;
+    while (left > 0) { Unit &u = l.units.front(); size_t rem = u.bytes.size() - l.head_off; if (left >= rem) { left -= rem; if (!u.is_iv) l.frames_fed++; l.units.pop_front(); l.head_off = 0; } else { l.head_off += left; left = 0; } }
+    return (size_t)w;
+  }
+  // feed as an op of a sequence: logs and classifies the boundary
+  size_t feed_op(Link &l, size_t nb, bool polled_after) {
+    size_t w = feed(l, nb); std::string bc = l.layout_exact ? boundary_class(l) : "after-fault";
+    log << " F" << l.s << ">" << l.r << ":" << w << "(" << bc << ")";
+    if (w) { ctx.label("boundary:" + bc); if (polled_after && (bc == "inside-iv" || bc == "before-newline" || bc == "after-newline" || bc == "inside-tag")) nt_boundary = true; }
+    return w;
+  }
+
+  // ---- receiver side and oracle -----------------------------------------------------------
+  void deliver(size_t r, size_t from, const std::vector<Z> &vals) {
+    ndelivered += vals.size();
+    if (from >= n) { fail(sig("bad-sender-index"), "Receive returned true with sender index " + std::to_string(from)); return; }
+    Link &l = L(from, r); std::string ln = std::to_string(from) + ">" + std::to_string(r);
+    for (auto &v : vals) {
+      log << " <" << ln << "=" << S(v);
+      if (l.tainted && !l.judged) { l.unjudged++; continue; }
+      size_t h = l.delivered;
+      if (h < l.sent.size() && l.sent[h].v == v) { l.delivered++; continue; }
+      size_t h2 = h; while (h2 < l.sent.size() && l.sent[h2].undeliverable) h2++;
+      if (h2 > h && h2 < l.sent.size() && l.sent[h2].v == v) {
+        fail(sig("negative-integer-accepted-but-not-delivered"), "Send accepted " + S(l.sent[h].v) + " on the encrypted link " + ln + ", the receiver dropped it and went on with the next integer");
+        l.delivered = h2 + 1; continue;
+      }
+      long idx = -1; for (size_t i = h; i < l.sent.size() && idx < 0; i++) if (l.sent[i].v == v) idx = (long)i;
+      if (idx < 0) for (size_t i = h; i-- > 0 && idx < 0;) if (l.sent[i].v == v) idx = (long)i;
+      std::string cls, what = "link " + ln + " delivered " + S(v) + " but the next undelivered integer of the model is " + (h < l.sent.size() ? S(l.sent[h].v) : std::string("<none>")) + " (#" + std::to_string(h) + " of " + std::to_string(l.sent.size()) + ")";
+      if (!l.tainted) cls = h >= l.sent.size() ? "delivers-more-than-sent" : "fragmentation-changes-delivery";
+      else if (l.iv_flip_only && idx > (long)h) cls = "iv-bit-flip-skips-a-message";
+      else if (l.reflected.count(v.get_str(62))) cls = "frame-of-reverse-link-delivered";
+      else if (idx < 0) cls = "modified-frame-delivered";
+      else if (idx < (long)h) cls = "replayed-frame-delivered";
+      else cls = "delivery-continues-after-gap";
+      fail(sig(cls), what);
+      if (idx >= (long)h) l.delivered = (size_t)idx + 1;
+    }
+  }
+  // one Receive call at party r; arr == 0: scalar variant, else array of arr integers
+  bool recv(size_t r, size_t sched, size_t from, size_t arr) {
+    size_t i = sched == S_DIR ? from : n + 3; bool ok;
+    if (arr == 0) { Z m = -99; ok = ep[r]->Receive(m.get_mpz_t(), i, sched, aiounicast::aio_timeout_none); if (ok) deliver(r, i, std::vector<Z>(1, m)); }
+    else {
+      std::vector<Z> zs(arr, Z(-99)); std::vector<mpz_ptr> ps; for (auto &z : zs) ps.push_back(z.get_mpz_t());
+      ok = ep[r]->Receive(ps, i, sched, aiounicast::aio_timeout_none); if (ok) deliver(r, i, zs);
+    }
+    return ok;
+  }
+  void recv_op(size_t r, size_t sched, size_t from, size_t arr) {
+    log << " R" << r << ":" << sched_name(sched); if (sched == S_DIR) log << from; if (arr) log << "x" << arr;
+    recv(r, sched, from, arr);
+  }
+  // hand over everything that is still pending, receive until nothing moves, then judge completeness
+  void finish() {
+    log << " | drain";
+    for (size_t r = 0; r < n; r++) {
+      std::vector<Link *> in; for (size_t s = 0; s < n; s++) if (L(s, r).used) in.push_back(&L(s, r));
+      if (in.empty()) continue;
+      size_t arr = array_style ? drain_arr : 0;
+      size_t idle = 0, t = 0, lim = (arr + 3) * 2 * (in.size() + 1) + 4;
+      while (idle < lim && t < 200000) {
+        bool prog = false;
+        for (auto l : in) if (l->pending && feed(*l, l->pending) > 0) prog = true;
+        size_t w = t % (in.size() + 1), before = ndelivered; t++;
+        if (w < in.size()) recv(r, S_DIR, in[w]->s, arr); else recv(r, S_RR, 0, arr);
+        if (ndelivered != before) prog = true;
+        idle = prog ? 0 : idle + 1;
+      }
+      for (auto l : in) {
+        if (l->tainted) continue;
+        size_t h = l->delivered; bool only_neg = h < l->sent.size(); for (size_t i = h; i < l->sent.size(); i++) if (!l->sent[i].undeliverable) only_neg = false;
+        std::string ln = std::to_string(l->s) + ">" + std::to_string(l->r);
+        if (only_neg) fail(sig("negative-integer-accepted-but-not-delivered"), "Send accepted " + S(l->sent[h].v) + " on the encrypted link " + ln + " but the receiver never delivers it");
+        else if (h < l->sent.size()) fail(sig("message-lost"), "link " + ln + ": " + std::to_string(l->sent.size() - h) + " accepted integer(s) never delivered although every byte was handed over (" + std::to_string(l->pending) + " bytes could not be written), first missing " + S(l->sent[h].v));
+      }
+    }
+  }
+
+  // ---- wire faults -----------------------------------------------------------------------------
+  void recount(Link &l) { // after an edit: drop emptied units, recompute the number of pending bytes
+    for (size_t i = l.units.size(); i-- > 1;) if (l.units[i].bytes.empty()) l.units.erase(l.units.begin() + i);
+    if (!l.units.empty() && l.head_off >= l.units.front().bytes.size()) { l.units.pop_front(); l.head_off = 0; }
+    l.pending = 0; for (auto &u : l.units) l.pending += u.bytes.size(); l.pending -= l.head_off;
+  }
+  // message units that are still completely in the harness buffer
+  std::vector<size_t> whole_frames(const Link &l) const { std::vector<size_t> v; for (size_t i = 0; i < l.units.size(); i++) if (!l.units[i].is_iv && !(i == 0 && l.head_off > 0)) v.push_back(i); return v; }
+  void mark(Link &l, int kind, bool in_iv) {
+    any_fault = true; l.tainted = true; ctx.label(std::string("fault:") + FAULT_NAME[kind]);
+    bool frame_level = kind == F_DUP || kind == F_SWAP || kind == F_DROP || kind == F_REFLECT;
+    if (!cfg.auth()) l.judged = false;
+    if (frame_level && cfg.chunked()) l.judged = false; // insert/remove/replay/reorder of whole messages is promised for the stream mode only
+    if (!(kind == F_FLIP && in_iv)) l.iv_flip_only = false;
+    if (kind != F_FLIP) l.layout_exact = false;
+  }
+  // byte-level fault at flat offset `off` of the pending bytes (0 = first byte not yet handed over)
+  bool fault_byte(Link &l, int kind, size_t off, unsigned arg) {
+    if (off >= l.pending) return false;
+    size_t ui = 0, o = off + l.head_off; while (o >= l.units[ui].bytes.size()) { o -= l.units[ui].bytes.size(); ui++; }
+    Unit &u = l.units[ui]; bool in_iv = u.is_iv;
+    log << " X" << l.s << ">" << l.r << ":" << FAULT_NAME[kind] << "@" << off << (in_iv ? "(iv)" : u.is_iv ? "" : o < u.line ? "(line)" : o == u.line ? "(newline)" : "(tag)");
+    if (kind == F_FLIP) { u.bytes[o] = (char)(u.bytes[o] ^ (1u << (arg % 8))); log << "^" << (arg % 8); }
+    else if (kind == F_INSERT) { u.bytes.insert(o, 1, (char)(arg & 0xFF)); recount(l); log << "+" << (arg & 0xFF); }
+    else if (kind == F_DELETE) { u.bytes.erase(o, 1); recount(l); }
+    else if (kind == F_TRUNC) { // everything from off on disappears; later sends follow directly
+      u.bytes.erase(o); while (l.units.size() > ui + 1) l.units.pop_back(); recount(l);
+      if (o == 0 && !in_iv && cfg.chunked()) { mark(l, F_DROP, false); return true; } // a cut exactly at a frame boundary removes whole messages
+    }
+    else return false;
+    mark(l, kind, in_iv); return true;
+  }
+  bool fault_frame(Link &l, int kind, size_t a, size_t b) { // a, b index into whole_frames()
+    std::vector<size_t> wf = whole_frames(l);
+    if (kind == F_DUP) { if (a >= wf.size()) return false; if (b < a) b = a; if (b >= wf.size()) b = wf.size() - 1; Unit c = l.units[wf[a]]; l.units.insert(l.units.begin() + wf[b] + 1, c); recount(l); log << " X" << l.s << ">" << l.r << ":dup-frame#" << c.msg << "-after#" << l.units[wf[b]].msg; }
+    else if (kind == F_DROP) { if (a >= wf.size()) return false; log << " X" << l.s << ">" << l.r << ":drop-frame#" << l.units[wf[a]].msg; l.units.erase(l.units.begin() + wf[a]); recount(l); }
+    else if (kind == F_SWAP) { if (a >= wf.size() || b >= wf.size() || a == b || l.units[wf[a]].bytes == l.units[wf[b]].bytes) return false; log << " X" << l.s << ">" << l.r << ":swap-frames#" << l.units[wf[a]].msg << ",#" << l.units[wf[b]].msg; std::swap(l.units[wf[a]], l.units[wf[b]]); }
+    else return false;
+    mark(l, kind, false); return true;
+  }
+  // a frame recorded on the reverse link r->s (same pair key) is inserted in front of whole frame #a (or at the end)
+  bool fault_reflect(Link &l, size_t a, size_t k) {
+    Link &rv = L(l.r, l.s); if (l.s == l.r || rv.hist.empty()) return false;
+    std::vector<size_t> wf = whole_frames(l); size_t pos = a < wf.size() ? wf[a] : l.units.size();
+    if (pos == 0 && l.head_off > 0) return false;
+    if (k >= rv.hist.size()) k = rv.hist.size() - 1;
+    Unit u; u.bytes = rv.hist[k]; u.line = u.bytes.find('\n'); u.msg = -2;
+    l.units.insert(l.units.begin() + pos, u); recount(l);
+    // which integer was that (the model of the reverse link knows; delimiters of stripped arrays are not in it, so go by the history index)
+    log << " X" << l.s << ">" << l.r << ":cross-link-frame(" << l.r << ">" << l.s << "#" << k << ")@" << pos;
+    for (auto &e : rv.sent) l.reflected.insert(e.v.get_str(62));
+    mark(l, F_REFLECT, false); return true;
+  }
+};
+
+// --------------------------------------------------------------------------- generators
+static Z gen_value(Ctx &ctx, Sim &sim, std::string &cls, bool in_array) {
+  bool enc = sim.cfg.enc(); Z v;
+  switch (ctx.c.weighted({2, 2, 2, 2, 3, 3, 2, 1, 1, 1, 3, 1})) {
+    case 0: v = 0; cls = "0"; break;
+    case 1: v = 1; cls = "1"; break;
+    case 2: v = HIDE - 1; cls = "2^256-1"; break;
+    case 3: v = HIDE; cls = "2^256"; break;
+    case 4: v = zrand_bits(ctx, (unsigned)ctx.c.range(1, 64)); cls = "rand<=64b"; break;
+    case 5: v = zrand_bits(ctx, (unsigned)ctx.c.range(65, 700)); cls = "rand<=700b"; break;
+    case 6: v = zrand_bits(ctx, (unsigned)ctx.c.range(701, 12000)); cls = "rand<=12000b"; break;
+    case 7: v = pow62((unsigned)(BUFSZ / 2 - 2)) - 1 - (enc ? HIDE : Z(0)); cls = "largest-certainly-accepted"; break; // 2046 digits
+    case 8: if (in_array) { v = pow62((unsigned)(BUFSZ / 2 - 2)) - 1 - (enc ? HIDE : Z(0)); cls = "largest-certainly-accepted"; break; }
+      { unsigned d = (unsigned)(BUFSZ / 2 - 1 + ctx.c.index(2)); v = (ctx.c.coin() ? pow62(d - 1) : Z(pow62(d) - 1)) - (enc ? HIDE : Z(0)); cls = "at-size-limit"; break; } // 2047 or 2048 digits
+    case 9: switch (ctx.c.index(3)) { case 0: v = -1; break; case 1: v = -HIDE; break; default: v = -zrand_bits(ctx, (unsigned)ctx.c.range(2, 300)) - 1; } cls = "negative"; break;
+    case 10: if (sim.all_values.empty()) { v = 0; cls = "0"; } else { v = sim.all_values[ctx.c.index(sim.all_values.size())]; cls = "repeat"; } break;
+    default: v = DELIM; cls = "array-delimiter-value"; break;
+  }
+  if (in_array && cls == "repeat" && mpz_sizeinbase(v.get_mpz_t(), 62) > BUFSZ / 2 - 2) { v = 7; cls = "rand<=64b"; }
+  return v;
+}
+
+VF_SUB(op_sequences, 4000, 80000) {
+  Cfg cfg; cfg.sel = ctx.c.weighted({11, 9}) == 1;
+  cfg.mode = cfg.sel ? (int)ctx.c.weighted({2, 3, 3, 1, 3}) : (int)ctx.c.weighted({2, 3, 3, 1});
+  cfg.n = 2 + (ctx.c.coin() ? 1 : 0); cfg.keyvar = (int)ctx.c.index(2); cfg.blocking_fds = cfg.sel && ctx.c.coin();
+  bool array_style = ctx.c.prob(1, 3); size_t K = (size_t)ctx.c.range(1, 4); bool faulty = ctx.c.coin();
+  Sim sim(ctx, cfg); sim.array_style = array_style; sim.drain_arr = (array_style && cfg.chunked()) ? K : 1;
+  size_t n = cfg.n;
+  // links that carry traffic: 1..4, often several into the same receiver
+  std::vector<Link *> act; size_t want = (size_t)ctx.c.range(1, 4);
+  for (size_t tries = 0; act.size() < want && tries < 12; tries++) {
+    size_t s = ctx.c.index(n), r = ctx.c.index(n);
+    if (!act.empty() && ctx.c.coin()) r = act[0]->r;
+    Link *l = &sim.L(s, r); bool dup = false; for (auto a : act) if (a == l) dup = true; if (!dup) act.push_back(l);
+  }
+  size_t nops = (size_t)ctx.c.range(6, 40);
+  for (size_t op = 0; op < nops && !ctx.failed; op++) {
+    size_t kind = ctx.c.weighted({4, 5, 2, (unsigned)(faulty ? 2 : 0)});
+    std::vector<Link *> pend; for (auto l : act) if (l->pending) pend.push_back(l);
+    if ((kind == 1 || kind == 3) && pend.empty()) kind = 0;
+    if (kind == 0) { // send
+      Link &l = *act[ctx.c.index(act.size())]; std::string cls;
+      bool as_array = array_style && cfg.chunked() ? true : ctx.c.prob(1, 3);
+      if (!as_array) { Z v = gen_value(ctx, sim, cls, false); ctx.label("value:" + cls); sim.send(l, std::vector<Z>(1, v), false, cls); }
+      else {
+        size_t k = (array_style && cfg.chunked()) ? K : (size_t)ctx.c.range(1, 4); std::vector<Z> vs; std::string all;
+        for (size_t i = 0; i < k; i++) { vs.push_back(gen_value(ctx, sim, cls, true)); ctx.label("value:" + cls); all += (i ? "," : "") + cls; }
+        ctx.label("array-send"); sim.send(l, vs, true, all);
+      }
+    } else if (kind == 1) { // feed a chosen number of bytes, then poll 0..3 times
+      Link &l = *pend[ctx.c.index(pend.size())]; size_t nb = 1;
+      const Unit &u = l.units.front(); size_t off = l.head_off, ml = sim.maclen;
+      switch (ctx.c.weighted({3, 3, 2, 2, 2, 2, 2, 1})) {
+        case 0: nb = 1; break;
+        case 1: nb = (size_t)ctx.c.range(1, l.pending); break;
+        case 2: nb = (!u.is_iv && off < u.line) ? u.line - off : (size_t)ctx.c.range(1, std::min<size_t>(l.pending, 15)); break;          // stop right before the newline (or inside the IV)
+        case 3: nb = (!u.is_iv && off < u.line + 1) ? u.line + 1 - off : 1; break;                                                        // stop right after the newline
+        case 4: { size_t tg = ml > 1 ? (size_t)ctx.c.range(1, ml - 1) : 0; nb = (!u.is_iv && ml > 1 && u.line + 1 + tg > off) ? u.line + 1 + tg - off : 1; break; } // stop inside the tag
+        case 5: nb = u.bytes.size() - off; break;                                                                                          // exactly one unit
+        case 6: { size_t k = (size_t)ctx.c.range(1, l.units.size()); nb = 0; for (size_t i = 0; i < k; i++) nb += l.units[i].bytes.size(); nb -= off; break; } // k whole frames (coalesced)
+        default: nb = l.pending; break;
+      }
+      if (nb < 1) nb = 1;
+      size_t polls = ctx.c.weighted({1, 3, 2, 1});
+      sim.feed_op(l, nb, polls > 0);
+      for (size_t p = 0; p < polls && !ctx.failed; p++) {
+        static const size_t SCH[] = {S_RR, S_DIR, S_RND}; size_t sched = SCH[ctx.c.weighted({3, 2, 2})];
+        size_t arr = array_style ? (cfg.chunked() ? K : (size_t)ctx.c.range(1, 4)) : 0;
+        ctx.label(std::string("sched:") + sched_name(sched)); sim.recv_op(l.r, sched, l.s, arr);
+      }
+    } else if (kind == 2) { // receive somewhere
+      Link &l = *act[ctx.c.index(act.size())]; static const size_t SCH[] = {S_RR, S_RND, S_DIR}; size_t sched = SCH[ctx.c.index(3)];
+      size_t from = ctx.c.prob(1, 4) ? ctx.c.index(n) : l.s; size_t arr = array_style ? (cfg.chunked() ? K : (size_t)ctx.c.range(1, 4)) : 0;
+      ctx.label(std::string("sched:") + sched_name(sched)); sim.recv_op(l.r, sched, from, arr);
+    } else { // wire fault on bytes that have not been handed over yet
+      Link &l = *pend[ctx.c.index(pend.size())];
+      int fk = (int)ctx.c.weighted({4, 2, 2, 2, 2, 2, 2, 2}); bool done = false;
+      std::vector<size_t> wf = sim.whole_frames(l);
+      if (fk == F_DUP || fk == F_DROP) { size_t a = ctx.c.index(wf.size()), b = ctx.c.index(wf.size()); done = !wf.empty() && sim.fault_frame(l, fk, a, b); }
+      else if (fk == F_SWAP) { size_t a = ctx.c.index(wf.size()), b = ctx.c.index(wf.size()); done = wf.size() >= 2 && sim.fault_frame(l, fk, a, b); }
+      else if (fk == F_REFLECT) { Link &rv = sim.L(l.r, l.s); size_t a = ctx.c.index(wf.size() + 1); size_t absidx = l.frames_fed + a; size_t k = (!rv.hist.empty() && ctx.c.prob(3, 4)) ? std::min(absidx, rv.hist.size() - 1) : ctx.c.index(rv.hist.size() + 1); done = sim.fault_reflect(l, a, k); }
+      if (!done) {
+        if (fk >= F_DUP && fk != F_TRUNC) fk = F_FLIP;
+        // aim: a unit, then a region of it
+        size_t ui = ctx.c.index(l.units.size()); size_t base = 0; for (size_t i = 0; i < ui; i++) base += l.units[i].bytes.size(); const Unit &u = l.units[ui];
+        size_t o;
+        switch (ctx.c.weighted({3, 2, 3, 1})) { case 0: o = ctx.c.index(u.bytes.size()); break; case 1: o = u.is_iv ? 0 : u.line; break; case 2: o = u.is_iv ? ctx.c.index(u.bytes.size()) : u.line + 1 + ctx.c.index(sim.maclen ? sim.maclen : 1); break; default: o = 0; }
+        if (o >= u.bytes.size()) o = u.bytes.size() - 1;
+        size_t flat = base + o; flat = flat >= l.head_off ? flat - l.head_off : 0; if (flat >= l.pending) flat = l.pending - 1;
+        unsigned arg = fk == F_INSERT ? (unsigned)(ctx.c.weighted({2, 1, 1}) == 0 ? '\n' : ctx.c.coin() ? 'A' + ctx.c.index(26) : ctx.c.index(256)) : (unsigned)ctx.c.index(8);
+        sim.fault_byte(l, fk, flat, arg);
+      }
+    }
+  }
+  if (!ctx.failed) sim.finish();
+  sim.close_all();
+  ctx.count("virtual_select_wait_ms", (int64_t)(g_vwait_us / 1000)); g_vwait_us = 0;
+  ctx.label(std::string("ep:") + cfg.ep()); ctx.label(std::string("mode:") + MODE_NAME[cfg.mode]); ctx.label("n=" + std::to_string(n));
+  ctx.label(array_style ? "receive:array" : "receive:scalar"); ctx.label(sim.any_fault ? "with-fault" : "fault-free"); ctx.label("links=" + std::to_string(act.size()));
+  size_t unj = 0; for (auto &l : sim.links) unj += l.unjudged; if (unj) ctx.label("deliveries-after-fault-not-judged"); ctx.count("integers_delivered", (int64_t)sim.ndelivered);
+  ctx.desc << sim.head() << " ops:" << sim.log.str();
+  if (sim.any_fault || sim.nt_boundary) ctx.nontrivial(sim.head() + sim.log.str());
+}
+
+// --------------------------------------------------------------------------- enumerations
+static const size_t NCFG = 9;
+static Cfg enum_cfg(size_t i) { Cfg c; c.n = 2; if (i < 4) { c.sel = false; c.mode = (int)i; } else { c.sel = true; c.mode = (int)(i - 4); } return c; }
+// deterministic short message lists: 2..4 integers
+static std::vector<Z> enum_msgs(size_t v) {
+  std::vector<Z> m;
+  if (v == 0) { m.push_back(0); m.push_back(1); return m; }
+  if (v == 1) { m.push_back(HIDE); m.push_back(0); m.push_back(HIDE - 1); return m; }
+  uint64_t h = mix64(0xC13 + v); size_t cnt = 2 + h % 3; static const unsigned bits[] = {1, 8, 40, 64, 100, 200, 256, 257};
+  for (size_t i = 0; i < cnt; i++) { h = mix64(h + i); unsigned b = bits[h % 8]; Z x = 0; for (unsigned w = 0; w < (b + 63) / 64; w++) { h = mix64(h); x = (x << 64) + Z((unsigned long)h); } x >>= ((b + 63) / 64) * 64 - b; m.push_back(x); }
+  return m;
+}
+static std::string msgs_desc(const std::vector<Z> &m) { std::string s = "["; for (size_t i = 0; i < m.size(); i++) s += (i ? "," : "") + S(m[i]); return s + "]"; }
+
+// Every split point of a short exchange: hand over [0,k), let the receiver run, hand over the rest.
+static const size_t SPLIT_B = 8;
+VF_ENUM(split_points, 9 * 8 * 4, 9 * 8 * 60) {
+  size_t idx = ctx.c.raw(), ci = idx % NCFG, j = (idx / NCFG) % SPLIT_B, v = idx / (NCFG * SPLIT_B);
+  Cfg cfg = enum_cfg(ci); cfg.keyvar = (int)(v % 2); cfg.blocking_fds = cfg.sel && (v & 2);
+  std::vector<Z> msgs = enum_msgs(v); bool array_style = (v % 3) == 2; uint64_t ivseed = hash_str("split" + std::to_string(ci) + "/" + std::to_string(v));
+  size_t T = 0, done = 0, special = 0;
+  for (size_t k = j == 0 ? SPLIT_B : j;; k += SPLIT_B) {
+    rng_push(ivseed); Sim sim(ctx, cfg); rng_pop();                 // the same IV for every k: the exchange is byte-identical
+    sim.array_style = array_style; sim.drain_arr = msgs.size();
+    Link &l = sim.L(0, 1);
+    if (array_style) sim.send(l, msgs, true, msgs_desc(msgs)); else for (auto &m : msgs) sim.send(l, std::vector<Z>(1, m), false, S(m));
+    T = l.pending; if (k >= T) { sim.close_all(); break; }
+    sim.feed_op(l, k, true); std::string bc = sim.boundary_class(l); if (bc != "inside-line" && bc != "frame-boundary") special++;
+    size_t sched = (k % 3 == 0) ? S_RR : (k % 3 == 1) ? S_DIR : S_RND; size_t arr = array_style ? msgs.size() : 0;
+    for (size_t e = 0, p = 0; e < 2 && p < 12; p++) { size_t b = sim.ndelivered; sim.recv_op(1, sched, 0, arr); e = sim.ndelivered == b ? e + 1 : 0; }
+    sim.finish(); sim.close_all(); done++;
+    if (ctx.failed) break;
+  }
+  ctx.count("split_points_checked", (int64_t)done); ctx.count("splits_inside_iv_tag_or_at_newline", (int64_t)special);
+  ctx.label(std::string("ep:") + cfg.ep()); ctx.label(std::string("mode:") + MODE_NAME[cfg.mode]); ctx.label(array_style ? "receive:array" : "receive:scalar");
+  ctx.desc << cfg.ep() << "/" << MODE_NAME[cfg.mode] << " msgs=" << msgs_desc(msgs) << " wire=" << T << " bytes, every split point k = " << (j == 0 ? SPLIT_B : j) << " mod " << SPLIT_B << " (" << done << " splits)";
+  ctx.nontrivial(std::to_string(idx));
+}
+
+// Every catalogue fault at every byte offset / frame of a short exchange, on a fresh link (first frame carries
+// sequence number 1) and on an established link (one integer delivered before the fault).
+static const size_t FAULT_B = 16;
+VF_ENUM(fault_positions, 9 * 16 * 2, 9 * 16 * 32) {
+  size_t idx = ctx.c.raw(), ci = idx % NCFG, j = (idx / NCFG) % FAULT_B, v = idx / (NCFG * FAULT_B);
+  Cfg cfg = enum_cfg(ci); cfg.keyvar = (int)((v / 2) % 2); bool established = v % 2; size_t bitrot = v / 2; // thorough: other bit positions, inserted bytes, messages
+  std::vector<Z> msgs = enum_msgs(bitrot % 5 == 0 ? 0 : bitrot); if (msgs.size() < 3) msgs.push_back(Z(61)); // >= 3 frames so that swap/drop/dup have room
+  Z first = 5, extra = 77, other1 = 3, other2 = HIDE + 9;
+  uint64_t ivseed = hash_str("fault" + std::to_string(ci) + "/" + std::to_string(v));
+  size_t T = 0, F = 0, done = 0, total = 0;
+  for (size_t p = j;; p += FAULT_B) {
+    rng_push(ivseed); Sim sim(ctx, cfg); rng_pop();
+    Link &l = sim.L(0, 1), &rv = sim.L(1, 0), &other = sim.L(1, 1);
+    for (auto &m : msgs) sim.send(rv, std::vector<Z>(1, m + 1000), false, S(m + 1000));  // traffic of the reverse direction (never handed over): material for cross-link frames
+    if (established) { sim.send(l, std::vector<Z>(1, first), false, S(first)); sim.feed(l, l.pending); sim.finish(); }
+    for (auto &m : msgs) sim.send(l, std::vector<Z>(1, m), false, S(m));
+    sim.send(other, std::vector<Z>(1, other1), false, S(other1));
+    T = l.pending; F = sim.whole_frames(l).size();
+    // position p -> fault
+    total = 4 * T + 3 * F + (F - 1) + (F + 1);
+    if (p >= total) { sim.close_all(); break; }
+    bool ok;
+    if (p < 4 * T) { size_t off = p / 4; static const int BK[] = {F_FLIP, F_INSERT, F_DELETE, F_TRUNC}; int kind = BK[p % 4]; unsigned arg = kind == F_FLIP ? (unsigned)((off + bitrot) % 8) : (unsigned)(((off + bitrot) % 3 == 0) ? '\n' : ((off + bitrot) % 3 == 1) ? 'A' + (off % 26) : (off * 37 + bitrot) % 256); ok = sim.fault_byte(l, kind, off, arg); }
+    else if (p < 4 * T + F) ok = sim.fault_frame(l, F_DUP, p - 4 * T, p - 4 * T);
+    else if (p < 4 * T + 2 * F) ok = sim.fault_frame(l, F_DUP, p - 4 * T - F, F - 1);
+    else if (p < 4 * T + 3 * F) ok = sim.fault_frame(l, F_DROP, p - 4 * T - 2 * F, 0);
+    else if (p < 4 * T + 3 * F + (F - 1)) ok = sim.fault_frame(l, F_SWAP, p - 4 * T - 3 * F, p - 4 * T - 3 * F + 1);
+    else { size_t a = p - (4 * T + 3 * F + (F - 1)); ok = sim.fault_reflect(l, a, (established ? 1 : 0) + a); }
+    (void)ok;
+    // hand over in two pieces around the damaged place, receive, then more traffic on both links
+    sim.feed_op(l, (size_t)(1 + (p * 7) % (l.pending ? l.pending : 1)), true); sim.recv_op(1, S_RR, 0, 0); sim.recv_op(1, S_DIR, 0, 0);
+    sim.finish();
+    sim.send(l, std::vector<Z>(1, extra), false, S(extra)); sim.send(other, std::vector<Z>(1, other2), false, S(other2));
+    sim.finish(); sim.close_all(); done++;
+    if (ctx.failed) break;
+  }
+  ctx.count("faults_checked", (int64_t)done);
+  ctx.label(std::string("ep:") + cfg.ep()); ctx.label(std::string("mode:") + MODE_NAME[cfg.mode]); ctx.label(established ? "established-link" : "fresh-link");
+  ctx.desc << cfg.ep() << "/" << MODE_NAME[cfg.mode] << (established ? " established link" : " fresh link") << " msgs=" << msgs_desc(msgs) << " wire=" << T << " bytes, " << F << " frames: faults " << j << " mod " << FAULT_B << " of " << total << " (flip/insert/delete/truncate at every offset, dup/drop/swap/cross-link of every frame)";
+  ctx.nontrivial(std::to_string(idx));
+}
+
+// --------------------------------------------------------------------------- process start
+void vf::harness_init() {
+  signal(SIGPIPE, SIG_IGN);
+  g_real_select = getenv("C13_REAL_SELECT") != nullptr;
+  if (!getenv("C13_VERBOSE")) { static NullBuf nb; std::cerr.rdbuf(&nb); } // the library reports every refused frame on std::cerr
+  if (const char *k = getenv("C13_TREAT_AS_KNOWN")) { std::string s(k); size_t i = 0; while (i <= s.size()) { size_t j = s.find(',', i); if (j == std::string::npos) j = s.size(); if (j > i) g_treat_known.insert(s.substr(i, j - i)); i = j + 1; } }
+  // warm-up: lazy initialisations of libgcrypt (and the key derivations) happen here, not inside the first case's descriptor accounting
+  Ctx dummy; for (int sel = 0; sel < 2; sel++) { Cfg c; c.sel = sel; c.mode = sel ? M_CHUNKED : M_AUTHENC; c.n = 3; Sim s(dummy, c); }
 }
